@@ -826,9 +826,12 @@ func (e *Env) applySpecFunc(sf *SpecFunc, args []TV, n ast.Node) TV {
 	se := &Env{vc: vc, pkg: sf.Pkg, vars: map[string]TV{}, heap: e.heap, old: e.old, depth: e.depth, tparams: e.tparams, facts: e.facts}
 	for i, p := range sf.Params {
 		a := args[i]
-		// keep the caller's (more precise) Go type; the declared type only fixes nil literals
+		// keep the caller's (more precise) Go type; the declared type only fixes nil literals and interface boxing
 		if a.IsNil {
 			a = nilOf(se.resolveType(p.Type), vc)
+		} else if pt := se.resolveType(p.Type); pt.Sort == "Iface" && a.S.Sort != "Iface" && a.S.Go != nil {
+			a = TV{T: vc.toAny(a.T, a.S.Go), S: pt}
+			args[i] = a
 		}
 		se.vars[p.Name] = a
 	}
